@@ -207,8 +207,123 @@ fn message(rng: &mut Rng, len: usize) -> Vec<u8> {
     (0..len).map(|i| start.wrapping_add((i as u8).wrapping_mul(7))).collect()
 }
 
+/// The assembler as the connection uses it: fragmented messages over a real connection, with duplicates that
+/// arrive before *and after* their sequence completed, sequence ids that are used again, and interleaved
+/// sequences. Every message is returned once, intact, in completion order; a late duplicate costs at most one
+/// error and leaves nothing behind that could leak into a later message.
+async fn connection_level(ctx: &Ctx, rng: &mut Rng) {
+    use crate::mon::net::{self, FLAG_DIST_HDR_ATOM_CACHE, FLAG_FRAGMENTS, PEER_BASE_FLAGS};
+    use crate::refmodel::dist::write_message;
+    use crate::refmodel::encode::ref_encode_canonical;
+    use crate::refmodel::val::Val;
+    let epmd = net::start_epmd().await;
+    for h in 0..ctx.pick(24usize, 600usize) {
+        if !ctx.time_left() {
+            break;
+        }
+        let nmsg = 2 + rng.below(4);
+        let id_pool: Vec<u64> = vec![0x7A11_0000_0000 + h as u64, 5];
+        let mut stream: Vec<u8> = Vec::new();
+        let mut expected: Vec<(Val, Val)> = Vec::new();
+        let mut late_duplicates = 0usize;
+        let mut layout: Vec<String> = Vec::new();
+        let mut uid = h as i128 * 100;
+        let mut pending_late: Vec<Vec<u8>> = Vec::new();
+        for m in 0..nmsg {
+            uid += 1;
+            let control = Val::Tuple(vec![Val::int(2), Val::atom(""), Val::Pid { node: "rust@127.0.0.1".into(), id: 3, serial: 0, creation: 1 }]);
+            let fill = *rng.pick(&[10usize, 30, 200]);
+            let payload = Val::Tuple(vec![Val::atom("frag"), Val::int(uid), Val::binary(&vec![0xA0 + (m as u8); fill])]);
+            let msg = write_message(&[], &[&control, &payload]);
+            let body = &msg[2..];
+            let nfrag = 2 + rng.below(3);
+            let mut cuts: Vec<usize> = (1..nfrag).map(|_| 1 + rng.below(body.len())).collect();
+            cuts.sort();
+            // ids are used again: mostly the same id for consecutive messages
+            let seq = if rng.chance(3, 4) { id_pool[0] } else { id_pool[1] };
+            let mut frames: Vec<Vec<u8>> = Vec::new();
+            let mut prev = 0usize;
+            for f in 0..nfrag {
+                let end = if f < cuts.len() { cuts[f] } else { body.len() };
+                let mut b = vec![131u8, if f == 0 { 69 } else { 70 }];
+                b.extend_from_slice(&seq.to_be_bytes());
+                b.extend_from_slice(&((nfrag - f) as u64).to_be_bytes());
+                b.extend_from_slice(&body[prev..end]);
+                frames.push(b);
+                prev = end;
+            }
+            // late duplicates of the previous message's continuations arrive now (its sequence is complete)
+            for d in pending_late.drain(..) {
+                stream.extend(super::c06::frame(&d));
+                late_duplicates += 1;
+                layout.push("late-duplicate".into());
+            }
+            for (f, fr) in frames.iter().enumerate() {
+                stream.extend(super::c06::frame(fr));
+                layout.push(format!("{}{:x}#{}", if f == 0 { "H" } else { "c" }, seq & 0xffff, nfrag - f));
+                // duplicate while the sequence is still incomplete
+                if f + 1 < frames.len() && rng.chance(1, 5) {
+                    stream.extend(super::c06::frame(fr));
+                    layout.push("dup".into());
+                }
+                if rng.chance(1, 6) {
+                    stream.extend_from_slice(&[0, 0, 0, 0]);
+                }
+            }
+            if rng.chance(1, 2) {
+                let k = 1 + rng.below(frames.len() - 1);
+                pending_late.push(frames[k].clone());
+            }
+            expected.push((control, payload));
+        }
+        for d in pending_late.drain(..) {
+            stream.extend(super::c06::frame(&d));
+            late_duplicates += 1;
+            layout.push("late-duplicate".into());
+        }
+        let mut end = vec![112u8];
+        end.extend(ref_encode_canonical(&Val::Tuple(vec![Val::int(2), Val::atom(""), Val::Pid { node: "rust@127.0.0.1".into(), id: 3, serial: 0, creation: 1 }])).unwrap());
+        end.extend(ref_encode_canonical(&Val::atom("$end$")).unwrap());
+        stream.extend(super::c06::frame(&end));
+        let own = edp_client::DistributionFlags::default().as_u64() | FLAG_DIST_HDR_ATOM_CACHE | FLAG_FRAGMENTS;
+        let frames_total = layout.len();
+        let out = super::c06::scenario(&epmd, &format!("g{}", h), own, PEER_BASE_FLAGS | FLAG_DIST_HDR_ATOM_CACHE | FLAG_FRAGMENTS, stream, vec![], frames_total + 8).await;
+        ctx.eval(expected.len() as u64);
+        ctx.class(&format!("connection/{}msgs/{}late-duplicates", nmsg, late_duplicates.min(3)));
+        let wit = |d: serde_json::Value| json!({"history": h, "frames": layout, "detail": d});
+        if let Some(e) = &out.connect_error {
+            ctx.inconclusive(&format!("handshake with the scripted peer failed: {}", e));
+            continue;
+        }
+        if let Some(p) = &out.panicked {
+            ctx.viol("C09:connection:panic-or-stall", "the receiving task panicked or never finished", wit(json!({"panic": p})));
+            continue;
+        }
+        let oks: Vec<&(Val, Option<Val>)> = out.results.iter().filter_map(|r| r.as_ref().ok()).collect();
+        let errs: Vec<&String> = out.results.iter().filter_map(|r| r.as_ref().err()).collect();
+        let mut good = oks.len() == expected.len() + 1;
+        if good {
+            for (g, (c, p)) in oks.iter().zip(expected.iter()) {
+                if !g.0.same(c) || !matches!(&g.1, Some(x) if x.same(p)) {
+                    good = false;
+                }
+            }
+        }
+        if !good {
+            let cause = if late_duplicates > 0 { "with-late-duplicates" } else { "no-late-duplicates" };
+            ctx.viol(
+                &format!("C09:connection:messages-differ:{}", cause),
+                "fragmented messages were not each returned once and intact by the connection",
+                wit(json!({"expected_messages": expected.len(), "returned_ok": oks.len(), "returned": oks.iter().map(|g| g.1.as_ref().map(|x| x.show().chars().take(60).collect::<String>())).collect::<Vec<_>>(), "errors": errs.iter().take(4).collect::<Vec<_>>()})),
+            );
+        } else if errs.len() > late_duplicates {
+            ctx.viol("C09:connection:more-errors-than-late-duplicates", "more errors than frames that could not belong to any open sequence", wit(json!({"errors": errs, "late_duplicates": late_duplicates})));
+        }
+    }
+}
+
 pub fn run(ctx: &Ctx) {
-    ctx.rule("cases = arrival histories of fragments derived from an original message the protocol's way (first fragment numbered n and carrying the start, counting down to 1): all n! arrival orders for n <= 6 (quick) / 7 (thorough) x cut patterns incl. empty fragments; random orders for n <= 64; every single duplicate (header or continuation) at every later position of every order for n <= 4/5; random duplicates, id 0 and out-of-range ids injected; 2..4 sequences with arbitrary 64-bit ids interleaved; slowly arriving sequences (gaps below the timeout, total above it, with a sweep before each arrival) must survive; expiry; evaluations = fragment arrivals whose return value was compared with the sequential model; distinct = distinct (n, arrival order hash, cut pattern, injected-noise kind)");
+    ctx.rule("cases = arrival histories of fragments derived from an original message the protocol's way (first fragment numbered n and carrying the start, counting down to 1): all n! arrival orders for n <= 6 (quick) / 7 (thorough) x cut patterns incl. empty fragments; random orders for n <= 64; every single duplicate (header or continuation) at every later position of every order for n <= 4/5; random duplicates, id 0 and out-of-range ids injected; 2..4 sequences with arbitrary 64-bit ids interleaved; slowly arriving sequences (gaps below the timeout, total above it, with a sweep before each arrival) must survive; expiry; the same through a real connection (fragmented messages with duplicates before and after completion, re-used sequence ids, ticks); evaluations = fragment arrivals whose return value was compared with the sequential model; distinct = distinct (n, arrival order hash, cut pattern, injected-noise kind)");
     ctx.assume("a duplicate fragment carries the same bytes as the original (conforming peer); fragments arriving after their sequence completed start a new pending sequence in the model as they do in the assembler");
     let mut rng = Rng::derive(ctx.seed, 9, 1);
     let max_exh = ctx.pick(6usize, 7usize);
@@ -417,5 +532,11 @@ pub fn run(ctx: &Ctx) {
         if r.is_some() {
             ctx.viol("C09:stale-data-after-expiry", "a sequence completed from fragments that had expired", json!({}));
         }
+    }
+    // (4) through a real connection
+    {
+        let rt = tokio::runtime::Builder::new_current_thread().enable_all().build().expect("runtime");
+        let mut crng = Rng::derive(ctx.seed, 9, 4);
+        rt.block_on(connection_level(ctx, &mut crng));
     }
 }
